@@ -274,7 +274,7 @@ def check_e2e(ctx, case, zone):
 def part_e2e(ctx):
     zone = ZONES[ctx.shard % len(ZONES)]
     set_zone(zone)
-    n = 60 if ctx.tier == "quick" else 2000
+    n = 180 if ctx.tier == "quick" else 2000
     hyp_run(ctx, E2E, lambda c: check_e2e(ctx, c, zone), n, name="e2e_" + zone)
 
 
